@@ -37,6 +37,23 @@ pub fn plan_string(p: &Plan) -> String {
 
 pub const INV_TIMEOUT_MS: u64 = 20_000;
 
+thread_local! {
+    /// the transfer cap (`SIM_IOCAP`) in force for the executions made by this worker thread
+    static IOCAP: std::cell::Cell<u32> = const { std::cell::Cell::new(0) };
+}
+pub fn set_iocap(c: u32) {
+    IOCAP.with(|x| x.set(c));
+}
+/// an invocation's transfer cap, taken from bits of a number the generator has drawn anyway
+pub fn cap_from(x: u64) -> u32 {
+    const CAPS: [u32; 7] = [1, 2, 3, 5, 8, 64, 4096];
+    if (x >> 7) % 9 == 0 {
+        CAPS[((x >> 20) % 7) as usize]
+    } else {
+        0
+    }
+}
+
 /// Execute one invocation of the real binary with cwd = root/cwd_rel.
 pub fn exec(root: &str, cwd_rel: &str, args: &[String], stdin: &str, detrand: u64, dirseed: u64, plan: &Plan) -> InvOut {
     let trace = format!("{root}.trace");
@@ -48,6 +65,10 @@ pub fn exec(root: &str, cwd_rel: &str, args: &[String], stdin: &str, detrand: u6
     env.push(("SIM_DIRSEED".into(), dirseed.to_string()));
     if !plan.is_empty() {
         env.push(("SIM_PLAN".into(), plan_string(plan)));
+    }
+    let cap = IOCAP.with(|x| x.get());
+    if cap > 0 {
+        env.push(("SIM_IOCAP".into(), cap.to_string()));
     }
     let t_dbg = std::time::Instant::now();
     let out = proc::run(RunSpec { exe: &proc::asca_bin(), args: args.to_vec(), cwd: Some(&cwd), env, stdin: stdin.as_bytes().to_vec(), timeout_ms: INV_TIMEOUT_MS })
